@@ -239,7 +239,7 @@ func runC14(w *World, r *Report, tier string) {
 				bad = "something is written although no common mechanism exists"
 			}
 			okPerm := false
-			if mi, ok := rvI(ret.Results[0], len(path)-1).(*ssa.MakeInterface); ok {
+			if mi, ok := rvI(rres(path, ret)[0], len(path)-1).(*ssa.MakeInterface); ok {
 				if c, ok := mi.X.(*ssa.Call); ok && w.callKey(c) == "xmpp.NewConnError" {
 					if b, isC := boolConst(c.Call.Args[1]); isC && b {
 						okPerm = true
@@ -257,7 +257,7 @@ func runC14(w *World, r *Report, tier string) {
 		walkPaths(after(ap), nil, nil, 2000, func(path []ssa.Instruction, end pathEnd) {
 			if ret, ok := path[len(path)-1].(*ssa.Return); ok && ret.Parent() == sasl {
 				nAfter++
-				if rvI(ret.Results[0], len(path)-1) != ssa.Value(ap) {
+				if rvI(rres(path, ret)[0], len(path)-1) != ssa.Value(ap) {
 					okRet = false
 				}
 			}
@@ -366,7 +366,7 @@ func runC14(w *World, r *Report, tier string) {
 			if iW := indexOn(path, isWr); iW < 0 || iW > iNP {
 				bad = "the reply is read before <auth/> has been written"
 			}
-			res := rvI(ret.Results[0], len(path)-1)
+			res := rvI(rres(path, ret)[0], len(path)-1)
 			mayBeNil := isNilConst(res) || pathAsserts(path, func(c ssa.Value, truth bool) bool { return assertsNil(c, truth, res) })
 			typed := func(name string) bool {
 				return pathAsserts(path, func(c ssa.Value, truth bool) bool {
